@@ -3,9 +3,14 @@
 package dkgrig
 
 import (
+	"context"
 	"fmt"
 	"os"
 	"testing"
+
+	"github.com/shutter-network/shutter/shlib/puredkg"
+
+	"github.com/shutter-network/rolling-shutter/rolling-shutter/shdb"
 
 	"verif/harness/hx"
 )
@@ -227,19 +232,8 @@ func checkCrashRun(t *testing.T, cfg Config, ref, res *RunResult, what string) {
 	if !res.AllFinished {
 		t.Errorf("%s: not all keypers finished", what)
 	}
-	for _, v := range SameOutcome(ref, res) {
+	for _, v := range crashProblems(ref, res) {
 		t.Errorf("%s: %s", what, v)
-	}
-	for _, v := range CheckAgreement(res) {
-		t.Errorf("%s: %s", what, v)
-	}
-	for i := range res.Keypers {
-		for _, v := range CheckTrace(res, i) {
-			t.Errorf("%s: %s", what, v)
-		}
-	}
-	if len(res.Notes) > 0 {
-		t.Errorf("%s: notes: %v", what, res.Notes)
 	}
 	t.Logf("%s: restart after %q with blocks applied up to %d; blocks=%d, round trips=%d", what, firstErr(k.Trace.Restarts), restartHeight(res, cfg.Observed), res.Height, len(k.Trace.RoundTrips))
 	if t.Failed() && !historyShown {
@@ -249,6 +243,25 @@ func checkCrashRun(t *testing.T, cfg Config, ref, res *RunResult, what string) {
 }
 
 var historyShown bool
+
+// crashProblems compares a run with a crash to the crash-free run of the same configuration (all
+// keypers honest).
+func crashProblems(ref, res *RunResult) []string {
+	p := SameOutcome(ref, res)
+	p = append(p, CheckAgreement(res)...)
+	for i := range res.Keypers {
+		p = append(p, CheckTrace(res, i)...)
+	}
+	// nobody deviates, so nobody may be accused (an accusation makes the accused reveal, in its
+	// apology, the evaluation it had sent encrypted)
+	a, b := ref.Accepted(), res.Accepted()
+	for _, kind := range []string{"accusation", "apology"} {
+		if a[kind] != b[kind] {
+			p = append(p, fmt.Sprintf("%d %s transactions accepted, %d without the crash", b[kind], kind, a[kind]))
+		}
+	}
+	return append(p, res.Notes...)
+}
 
 // restartHeight is the last block the keyper had applied when it was restarted.
 func restartHeight(res *RunResult, k int) int64 {
@@ -296,5 +309,157 @@ func TestCrashAroundBroadcast(t *testing.T) {
 			}
 			checkCrashRun(t, cfg, ref, res, cp.String())
 		}
+	}
+}
+
+// The synchronous form: Keyper.Step with blocks made on the spot by every BroadcastTxCommit, and
+// empty blocks made by the caller in between.
+func TestManualSteps(t *testing.T) {
+	r, err := New(baseConfig())
+	if err != nil {
+		t.Fatal(err)
+	}
+	defer r.Close()
+	ctx := context.Background()
+	for r.Chain.Height() < 120 && !r.allFinished() {
+		for _, k := range r.Keypers {
+			if err := k.Step(ctx); err != nil {
+				t.Fatalf("keyper %d: %v", k.Index, err)
+			}
+		}
+		r.Tick(r.Chain.Height() + 1)
+		r.Chain.MakeBlock(nil)
+		r.scanEvents()
+	}
+	res := r.Result()
+	if !res.AllFinished {
+		t.Fatalf("not finished after %d blocks\n%s", res.Height, res.History())
+	}
+	for _, v := range CheckAgreement(res) {
+		t.Error(v)
+	}
+	for _, k := range res.Keypers {
+		if !k.Success {
+			t.Errorf("keyper %d failed: %s", k.Index, k.Error)
+		}
+	}
+	t.Logf("blocks=%d", res.Height)
+}
+
+// Other sizes, random step order and block schedule (delays of at most one block, which honest
+// messages survive with phase length 8).
+func TestSizesAndSchedules(t *testing.T) {
+	for i, nt := range [][2]int{{1, 1}, {2, 2}, {4, 3}, {5, 3}, {3, 2}, {4, 2}} {
+		r := hx.NewRand(uint64(i))
+		cfg := Config{N: nt[0], T: nt[1], Seed: uint64(i), Schedule: RandomSchedule(r.Fork(), 50, 1), Order: RandomOrder(r.Fork())}
+		res, err := Run(cfg)
+		if err != nil {
+			t.Fatal(err)
+		}
+		if !res.AllFinished {
+			t.Errorf("n=%d t=%d: not finished", nt[0], nt[1])
+		}
+		for _, k := range res.Keypers {
+			if !k.Success {
+				t.Errorf("n=%d t=%d: keyper %d failed: %s", nt[0], nt[1], k.Index, k.Error)
+			}
+		}
+		for _, v := range CheckAgreement(res) {
+			t.Errorf("n=%d t=%d: %s", nt[0], nt[1], v)
+		}
+		for k := range res.Keypers {
+			for _, v := range CheckTrace(res, k) {
+				t.Errorf("n=%d t=%d: %s", nt[0], nt[1], v)
+			}
+		}
+		t.Logf("n=%d t=%d: blocks=%d elapsed=%v round trips of keyper 0: %d", nt[0], nt[1], res.Height, res.Elapsed, len(res.Keypers[0].Trace.RoundTrips))
+		if t.Failed() {
+			t.Fatalf("\n%s", res.History())
+		}
+	}
+}
+
+// The root cause of the failures of the crash tests, in isolation: the keyper stores its DKG state
+// with encoding/gob (shdb.EncodePureDKG) and reads it back after a restart (ShuttermintState.Load).
+// "No commitment / no evaluation received from dealer j yet" is a nil pointer in
+// PureDKG.Commitments / PureDKG.Evals, and gob does not preserve it: *big.Int(nil) comes back as 0
+// and *Gammas(nil) as an empty commitment. puredkg takes "not nil" for "already received".
+func TestPureDKGSurvivesReload(t *testing.T) {
+	p := puredkg.NewPureDKG(1, 3, 2, 1)
+	if _, _, err := p.StartPhase1Dealing(); err != nil {
+		t.Fatal(err)
+	}
+	blob, err := shdb.EncodePureDKG(&p)
+	if err != nil {
+		t.Fatal(err)
+	}
+	q, err := shdb.DecodePureDKG(blob)
+	if err != nil {
+		t.Fatal(err)
+	}
+	for j := range p.Evals {
+		if (p.Evals[j] == nil) != (q.Evals[j] == nil) {
+			t.Errorf("Evals[%d]: nil before the round trip, %v after", j, q.Evals[j])
+		}
+		if (p.Commitments[j] == nil) != (q.Commitments[j] == nil) {
+			t.Errorf("Commitments[%d]: nil before the round trip, a commitment with %d gammas after", j, len(*q.Commitments[j]))
+		}
+	}
+	other := puredkg.NewPureDKG(1, 3, 2, 0)
+	commitment, evals, err := other.StartPhase1Dealing()
+	if err != nil {
+		t.Fatal(err)
+	}
+	if err := q.HandlePolyCommitmentMsg(commitment); err != nil {
+		t.Errorf("reloaded state refuses the first commitment of dealer 0: %v", err)
+	}
+	if err := q.HandlePolyEvalMsg(evals[0]); err != nil {
+		t.Errorf("reloaded state refuses the first evaluation of dealer 0: %v", err)
+	}
+}
+
+// Every round trip, both modes (about 500 runs; set DKGRIG_FULL=1). Reports which crash points change
+// the outcome instead of stopping at the first.
+func TestCrashEverywhere(t *testing.T) {
+	if os.Getenv("DKGRIG_FULL") == "" {
+		t.Skip("set DKGRIG_FULL=1")
+	}
+	cfg := baseConfig()
+	cfg.Observed = 1
+	n, ref, err := CountRoundTrips(cfg)
+	if err != nil {
+		t.Fatal(err)
+	}
+	type fail struct {
+		cp       CrashPoint
+		synced   int64
+		problems []string
+	}
+	var fails []fail
+	for seq := 1; seq <= n; seq++ {
+		for _, mode := range []CrashMode{DropBefore, DropAfter} {
+			cp := CrashPoint{Seq: seq, Mode: mode}
+			res, err := RunWithCrash(cfg, cp)
+			if err != nil {
+				t.Fatal(err)
+			}
+			var p []string
+			k := res.Keypers[cfg.Observed]
+			if len(k.Trace.Restarts) != 1 {
+				p = append(p, fmt.Sprintf("%d restarts", len(k.Trace.Restarts)))
+			}
+			if !res.AllFinished {
+				p = append(p, "not finished")
+			}
+			p = append(p, crashProblems(ref, res)...)
+			if len(p) > 0 {
+				fails = append(fails, fail{cp, restartHeight(res, cfg.Observed), p})
+			}
+		}
+	}
+	t.Logf("%d crash points, %d change the outcome", 2*n, len(fails))
+	for _, f := range fails {
+		rt := ref.Keypers[cfg.Observed].Trace.RoundTrips[f.cp.Seq-1]
+		t.Errorf("%v (%s, step %d, blocks applied up to %d): %v", f.cp, rt.Name, rt.Step, f.synced, f.problems)
 	}
 }
